@@ -4,6 +4,7 @@ import (
 	"context"
 	"fmt"
 	"io"
+	"os"
 	"net"
 	"sort"
 	"strings"
@@ -162,6 +163,9 @@ type c18Env struct {
 	seq     int
 	served  map[string]bool
 	refused map[string]int
+	docID   map[string]string // database -> id of the document setup put into collection c1
+	sel     string            // the database the current cell's credentials select
+	txid    string            // a transaction the current cell's session has open
 }
 
 func c18Services() ([]*c18Desc, error) {
@@ -362,7 +366,10 @@ type c18Chunks struct {
 	list []proto.Message
 }
 
-func c18KVChunks(key, val string) *c18Chunks {
+// c18KVChunks is a client stream payload: the given leading values (the
+// "prove since" number of StreamVerifiableSet, the operation kind of
+// StreamExecAll), then one key and its value, each prefixed with its length.
+func c18KVChunks(key, val string, lead ...[]byte) *c18Chunks {
 	enc := func(b []byte) []byte {
 		out := make([]byte, 8+len(b))
 		for i := 0; i < 8; i++ {
@@ -371,7 +378,13 @@ func c18KVChunks(key, val string) *c18Chunks {
 		copy(out[8:], b)
 		return out
 	}
-	return &c18Chunks{list: []proto.Message{&schema.Chunk{Content: append(enc([]byte(key)), enc([]byte(val))...)}}}
+	var content []byte
+	for _, l := range lead {
+		content = append(content, enc(l)...)
+	}
+	content = append(content, enc([]byte(key))...)
+	content = append(content, enc([]byte(val))...)
+	return &c18Chunks{list: []proto.Message{&schema.Chunk{Content: content}}}
 }
 
 func (e *c18Env) find(key string) *c18Desc {
@@ -439,7 +452,16 @@ func (e *c18Env) setup() {
 		e.must("schema/SQLExec", md, &schema.SQLExecRequest{Sql: "CREATE TABLE t1 (id INTEGER, v VARCHAR, PRIMARY KEY id); INSERT INTO t1 (id, v) VALUES (1, 'one');"})
 		e.must("doc/CreateCollection", md, &protomodel.CreateCollectionRequest{Name: "c1", Fields: []*protomodel.Field{{Name: "n", Type: protomodel.FieldType_INTEGER}}})
 		doc, _ := structpb.NewStruct(map[string]interface{}{"n": 1})
-		e.must("doc/InsertDocuments", md, &protomodel.InsertDocumentsRequest{CollectionName: "c1", Documents: []*structpb.Struct{doc}})
+		_, out, err := e.callResp(e.find("doc/InsertDocuments"), md, &protomodel.InsertDocumentsRequest{CollectionName: "c1", Documents: []*structpb.Struct{doc}})
+		if err != nil {
+			e.r.Violation("setup", "", "setup call doc/InsertDocuments failed: %v", err)
+		}
+		if ids := out.(*protomodel.InsertDocumentsResponse).DocumentIds; len(ids) == 1 {
+			if e.docID == nil {
+				e.docID = map[string]string{}
+			}
+			e.docID[db] = ids[0]
+		}
 	}
 }
 
@@ -548,7 +570,7 @@ func (e *c18Env) request(m *c18Desc, target string) proto.Message {
 	case "schema/UseDatabase":
 		return &schema.Database{DatabaseName: target}
 	case "schema/UpdateDatabase":
-		return &schema.DatabaseSettings{DatabaseName: "dbtmp", MaxKeyLen: 512}
+		return &schema.DatabaseSettings{DatabaseName: "dbtmp"}
 	case "schema/UpdateDatabaseV2":
 		return &schema.UpdateDatabaseRequest{Database: "dbtmp", Settings: &schema.DatabaseNullableSettings{Autoload: &schema.NullableBool{Value: false}}}
 	case "schema/FlushIndex":
@@ -563,9 +585,15 @@ func (e *c18Env) request(m *c18Desc, target string) proto.Message {
 		return &schema.TruncateDatabaseRequest{Database: "db1", RetentionPeriod: int64(25 * time.Hour / time.Millisecond)}
 	case "schema/exportTx":
 		return &schema.ExportTxRequest{Tx: 1}
-	case "schema/streamSet", "schema/streamVerifiableSet":
+	case "schema/streamSet":
 		return c18KVChunks(string(k), "x")
-	case "schema/streamExecAll", "schema/replicateTx", "schema/streamExportTx":
+	case "schema/streamVerifiableSet":
+		return c18KVChunks(string(k), "x", make([]byte, 8))
+	case "schema/streamExecAll":
+		return c18KVChunks(string(k), "x", []byte{1})
+	case "schema/streamExportTx":
+		return &schema.ExportTxRequest{Tx: 1}
+	case "schema/replicateTx":
 		return &c18Chunks{}
 	case "doc/CreateCollection":
 		return &protomodel.CreateCollectionRequest{Name: fmt.Sprintf("cn%d", e.seq)}
@@ -596,11 +624,28 @@ func (e *c18Env) request(m *c18Desc, target string) proto.Message {
 	case "doc/CountDocuments":
 		return &protomodel.CountDocumentsRequest{Query: q}
 	case "doc/AuditDocument":
-		return &protomodel.AuditDocumentRequest{CollectionName: "c1", DocumentId: "000000000000000000000000", Page: 1, PageSize: 5}
+		return &protomodel.AuditDocumentRequest{CollectionName: "c1", DocumentId: e.someDocID(), Page: 1, PageSize: 5}
 	case "doc/ProofDocument":
-		return &protomodel.ProofDocumentRequest{CollectionName: "c1", DocumentId: "000000000000000000000000"}
+		return &protomodel.ProofDocumentRequest{CollectionName: "c1", DocumentId: e.someDocID()}
 	}
 	return nil // the zero message of the method's input type
+}
+
+// someDocID: a document that exists in collection c1 of the selected database.
+func (e *c18Env) someDocID() string {
+	if id := e.docID[e.sel]; id != "" {
+		return id
+	}
+	return "000000000000000000000000"
+}
+
+// newTx opens a read-write transaction in the session behind md ("" if refused).
+func (e *c18Env) newTx(md metadata.MD) string {
+	_, out, err := e.callResp(e.find("schema/NewTx"), md, &schema.NewTxRequest{Mode: schema.TxMode_ReadWrite})
+	if err != nil {
+		return ""
+	}
+	return out.(*schema.NewTxResponse).TransactionID
 }
 
 // cell runs every method for one (user, selected database, credentials, state).
@@ -685,6 +730,13 @@ func (e *c18Env) cell(u c18User, sel, kind, state string) string {
 		} else {
 			md = metadata.Pairs("authorization", "v2.public.ZmFrZXRva2Vu")
 		}
+	}
+
+	// a session opens a transaction while its credentials are still good: the
+	// transaction calls below refer to it
+	e.sel, e.txid = selected, ""
+	if kind == "session" && md != nil && state != "garbage" && state != "none" {
+		e.txid = e.newTx(md)
 	}
 
 	// state reached after login
@@ -783,7 +835,23 @@ func (e *c18Env) cell(u c18User, sel, kind, state string) string {
 			why = "the caller's credentials are " + state
 		}
 		req := e.request(m, target)
-		served, resp, err := e.callResp(m, md, req)
+		cmd := md
+		e.sel = selected
+		switch m.key {
+		case "schema/TxSQLExec", "schema/TxSQLQuery", "schema/Commit", "schema/Rollback":
+			if e.txid == "" && state == "valid" && kind == "session" {
+				e.txid = e.newTx(md)
+			}
+			if e.txid != "" {
+				cmd = metadata.Join(md, metadata.Pairs("transactionid", e.txid))
+			}
+		}
+		served, resp, err := e.callResp(m, cmd, req)
+		if m.key == "schema/Commit" || m.key == "schema/Rollback" {
+			if served || state == "valid" {
+				e.txid = "" // ended, or gone together with a failed COMMIT
+			}
+		}
 		if ul, ok := resp.(*schema.UserList); ok && served && state == "valid" {
 			// a caller without admin rights learns about nobody but itself; an admin of
 			// the selected database only about the users of that database
@@ -818,8 +886,12 @@ func (e *c18Env) cell(u c18User, sel, kind, state string) string {
 			}
 		}
 		r.Logf("%s: %s served=%v must-refuse=%v err=%.120v", label, m.key, served, must, err)
+		if !served && !must && os.Getenv("VERIF_C18_DEBUG") != "" {
+			fmt.Fprintf(os.Stderr, "C18DEBUG %s %s: %.160v\n", m.key, label, err)
+		}
 		if served {
 			e.served[m.key] = true
+			r.Probe("c18-served-" + m.key)
 		} else {
 			e.refused[c18ErrClass(err)]++
 		}
